@@ -107,6 +107,26 @@ def rand_net4(rng, plen=None):
     return "%s/%d" % (ipaddress.IPv4Address(a), plen)
 
 
+def nested_family(rng):
+    """One outer block holding 2-4 mutually disjoint inner blocks (sometimes with a third level), in random order."""
+    oplen = rng.choice([4, 7, 8, 9, 12, 16])
+    outer = rng.getrandbits(32) & ~((1 << (32 - oplen)) - 1) & 0xFFFFFFFF
+    out = ["%s/%d" % (ipaddress.IPv4Address(outer), oplen)]
+    seen = set()
+    for _ in range(rng.randint(2, 4)):
+        iplen = min(32, oplen + rng.choice([1, 2, 4, 8, 8, 12, 16]))
+        slot = rng.getrandbits(iplen - oplen)
+        if (iplen, slot) in seen or any(pl < iplen and (slot >> (iplen - pl)) == sl or pl > iplen and (sl >> (pl - iplen)) == slot for pl, sl in seen):
+            continue
+        seen.add((iplen, slot))
+        inner = outer | (slot << (32 - iplen))
+        out.append("%s/%d" % (ipaddress.IPv4Address(inner), iplen))
+        if iplen <= 28 and rng.random() < 0.3:
+            out.append("%s/%d" % (ipaddress.IPv4Address(inner | (rng.getrandbits(2) << (30 - iplen))), iplen + 2))
+    rng.shuffle(out)
+    return out
+
+
 def prefix_lists(rng, quick):
     fixed = [
         None, None, None, None, None, None,  # the default list is what most users run with: weight it
@@ -124,6 +144,8 @@ def prefix_lists(rng, quick):
     out = list(fixed)
     for _ in range(3 if quick else 12):
         out.append([rand_net4(rng) for _ in range(rng.randint(1, 4))])
+    out.append(["10.0.0.0/8", "10.1.0.0/16", "10.2.0.0/16"])
+    out.append(nested_family(rng))
     return out
 
 
@@ -134,11 +156,16 @@ def address_lists(rng, quick):
              ["10.1.0.0/16", "10.0.0.0/8"], ["10.0.0.0/8", "10.1.0.0/16", "10.1.2.0/24"], list(RFC1918) + ["10.1.0.0/16"],
              ["192.168.128.0/17", "192.168.0.0/16", "172.20.0.0/14"], ["50.0.0.0/7", "51.2.0.0/15", "51.3.3.0/24"],
              ["0.0.0.0/0"], ["0.0.0.0/0", "10.0.0.0/8"], ["10.20.30.0"], ["10.0.0.0"], ["192.168.0.0", "11.11.0.0"], ["77.1.0.0/255.255.0.0"], ["11.11.11.0/0.0.0.255", "12.0.0.0/255.0.0.0"],
+             # an outer block holding several mutually disjoint inner blocks (listed in any order)
+             ["10.0.0.0/8", "10.1.0.0/16", "10.2.0.0/16"], list(RFC1918) + ["10.2.0.0/16", "10.1.0.0/16"],
+             ["50.100.1.0/24", "50.0.0.0/8", "50.200.0.0/16", "50.1.0.0/16"], ["60.0.0.0/6", "61.0.0.0/8", "62.1.2.3", "60.5.0.0/17"],
              # dual-stack lists: an IPv6 block before / between IPv4 blocks
              ["2001:db8::/32", "203.0.113.0/24"], ["10.0.0.0/8", "fd00::/8", "11.11.11.0/24"], ["2001:db8:aa::/48", "11.11.11.11", "12.20.0.0/16"]]
     out = list(fixed)
     for _ in range(2 if quick else 8):
         out.append([rand_net4(rng, rng.choice([8, 16, 20, 24, 27, 30, 31, 32])) for _ in range(rng.randint(1, 3))])
+    for _ in range(2 if quick else 8):
+        out.append(nested_family(rng))
     return out
 
 
